@@ -29,6 +29,7 @@ pub fn run_case(ctx: &Ctx, case: u64, ev: &mut Ev) {
     let h = hist::generate(&mut rng, &cfg);
     let hj = hist::history_json(&h);
     ev.evaluations += 1;
+    let _hook = crate::util::HookGuard::new();
     let mut t = match lib(case, "constructor", || hist::construct(&h.ctor, &mut rng.clone())) {
         Ok(Ok(t)) => t,
         Ok(Err(e)) => {
@@ -63,7 +64,7 @@ pub fn run_case(ctx: &Ctx, case: u64, ev: &mut Ev) {
                     case,
                     &format!("c04:panic:{}:{}", op.kind(), panic_sig(&p)),
                     "",
-                    json!({"history": hj, "failed_step": step, "op": op.name(), "panic": p, "tree_before_step": prev.to_json()}),
+                    json!({"history": hj, "failed_step": step, "op": op.name(), "panic": p, "lp_query_inside_the_solver": crate::util::take_pending_lp(), "tree_before_step": prev.to_json()}),
                 );
                 return;
             }
@@ -119,7 +120,7 @@ pub fn run_case(ctx: &Ctx, case: u64, ev: &mut Ev) {
         let _ = t2.len();
     });
     if let Err(p) = battery {
-        ev.violation(case, &format!("c04:unusable:{}", panic_sig(&p)), "", json!({"history": hj, "panic": p, "final_tree": prev.to_json()}));
+        ev.violation(case, &format!("c04:unusable:{}", panic_sig(&p)), "", json!({"history": hj, "panic": p, "lp_query_inside_the_solver": crate::util::take_pending_lp(), "final_tree": prev.to_json()}));
         return;
     }
     ev.count("final_tree_nodes", prev.nodes.len() as u64);
